@@ -56,8 +56,8 @@ impl UserId {
         if id_str.starts_with('@') {
             Self::parse(id)
         } else {
-            localpart_is_backwards_compatible(id_str)?;
-            Ok(Self::from_borrowed(&format!("@{id_str}:{server_name}")).to_owned())
+            let id = Self::complete_localpart(id_str, server_name)?;
+            Ok(Self::from_borrowed(&id).to_owned())
         }
     }
 
@@ -73,8 +73,8 @@ impl UserId {
         if id_str.starts_with('@') {
             Self::parse_rc(id)
         } else {
-            localpart_is_backwards_compatible(id_str)?;
-            Ok(Self::from_rc(format!("@{id_str}:{server_name}").into()))
+            let id = Self::complete_localpart(id_str, server_name)?;
+            Ok(Self::from_rc(id.into()))
         }
     }
 
@@ -90,9 +90,28 @@ impl UserId {
         if id_str.starts_with('@') {
             Self::parse_arc(id)
         } else {
-            localpart_is_backwards_compatible(id_str)?;
-            Ok(Self::from_arc(format!("@{id_str}:{server_name}").into()))
+            let id = Self::complete_localpart(id_str, server_name)?;
+            Ok(Self::from_arc(id.into()))
         }
+    }
+
+    /// Builds the user ID string for the given localpart and server name, checking that the
+    /// result is a valid user ID.
+    fn complete_localpart(
+        localpart: &str,
+        server_name: &ServerName,
+    ) -> Result<String, IdParseError> {
+        localpart_is_backwards_compatible(localpart)?;
+        let id = format!("@{localpart}:{server_name}");
+
+        // The localpart and the server name can be valid on their own and still be too long
+        // together.
+        #[cfg(not(feature = "compat-arbitrary-length-ids"))]
+        if id.len() > ID_MAX_BYTES {
+            return Err(IdParseError::MaximumLengthExceeded);
+        }
+
+        Ok(id)
     }
 
     /// Returns the user's localpart.
